@@ -199,6 +199,37 @@ type Tagged struct {
 	Score float64  `json:"score" jsonschema:"title=Score;minimum=-1000000;maximum=1000000"`
 }
 
+// ---- marshaler types (field types of the grammar: kinds "jm" and "tm") ----
+
+// JM is a json.Marshaler (value receiver): its encoding is the JSON text it carries.
+type JM struct{ J string }
+
+// MarshalJSON implements json.Marshaler.
+func (j JM) MarshalJSON() ([]byte, error) {
+	if j.J == "" {
+		return []byte("null"), nil
+	}
+	return []byte(j.J), nil
+}
+
+// UnmarshalJSON implements json.Unmarshaler.
+func (j *JM) UnmarshalJSON(b []byte) error { j.J = string(b); return nil }
+
+// TM is an encoding.TextMarshaler (value receiver): its encoding is a JSON string.
+type TM struct{ S string }
+
+// MarshalText implements encoding.TextMarshaler.
+func (t TM) MarshalText() ([]byte, error) { return []byte(t.S), nil }
+
+// UnmarshalText implements encoding.TextUnmarshaler.
+func (t *TM) UnmarshalText(b []byte) error { t.S = string(b); return nil }
+
+// JMType and TMType are the reflect types of the marshaler kinds.
+var (
+	JMType = reflect.TypeOf(JM{})
+	TMType = reflect.TypeOf(TM{})
+)
+
 // Ack is the output type of the binding tools.
 type Ack struct {
 	OK bool `json:"ok"`
